@@ -228,6 +228,17 @@ func first(calls []*Call) *resp.Value {
 	return calls[0].Reply
 }
 
+// WideRequest returns a well-formed variadic request with very many arguments (n keys): DEL k0 .. k<n-1>.
+// Argument lists have no documented bound; element counts around 2^16 are where fixed-size tables end.
+func WideRequest(idx int, n int) *Req {
+	ks := make([]string, n)
+	for i := range ks {
+		ks[i] = "w" + strconv.Itoa(i)
+	}
+	a := append([]string{"DEL"}, ks...)
+	return &Req{Idx: idx, Name: "DEL", Mode: Direct, ReplyOf: first, Class: "valid", Args: a, Bytes: resp.Cmd(a...), Expect: one("Del " + qs(ks)), SelectDB: -1}
+}
+
 // valid fills r with a well-formed request for name and its expectation.
 func (g *Gen) valid(r *Req, name string) {
 	r.Name = name
